@@ -30,8 +30,9 @@ Inductive errc := EExist | ENoEnt | ENotDir | EIsDir | ENotEmpty | EUnexpectedCo
 
 (* bookkeeping of file transfers: the transfer whose earlier chunk failed (failed_file_receive), and
    the write fault plan: which write_all calls (counted from 0) report a failure *)
-Record dext := mkX { x_failed : option path; x_wfail : list N; x_nwrites : N }.
-Definition dext0 : dext := mkX None [] 0.
+Record dext := mkX { x_failed : option path; x_wfail : list N; x_nwrites : N;
+                      x_faildel : list path }.   (* paths whose deletion failed: nothing at or below them is touched any more *)
+Definition dext0 : dext := mkX None [] 0 [].
 
 Record dstate := mkD {
   d_fs : fs;
@@ -79,9 +80,14 @@ Definition with_event (st : dstate) (e : event) : dstate := mkD (d_fs st) (d_anc
 Definition with_open (st : dstate) (o : option path) : dstate := mkD (d_fs st) (d_anc st) (d_tick st) o (d_events st) (d_x st).
 Definition tick (st : dstate) : dstate := mkD (d_fs st) (d_anc st) (d_tick st + 1) (d_open st) (d_events st) (d_x st).
 Definition with_failed (st : dstate) (o : option path) : dstate :=
-  mkD (d_fs st) (d_anc st) (d_tick st) (d_open st) (d_events st) (mkX o (x_wfail (d_x st)) (x_nwrites (d_x st))).
+  mkD (d_fs st) (d_anc st) (d_tick st) (d_open st) (d_events st) (mkX o (x_wfail (d_x st)) (x_nwrites (d_x st)) (x_faildel (d_x st))).
 Definition count_write (st : dstate) : dstate :=
-  mkD (d_fs st) (d_anc st) (d_tick st) (d_open st) (d_events st) (mkX (x_failed (d_x st)) (x_wfail (d_x st)) (x_nwrites (d_x st) + 1)).
+  mkD (d_fs st) (d_anc st) (d_tick st) (d_open st) (d_events st) (mkX (x_failed (d_x st)) (x_wfail (d_x st)) (x_nwrites (d_x st) + 1) (x_faildel (d_x st))).
+(* the F6b repair: a deletion that failed is remembered; queued commands for that path or anything inside it are refused *)
+Definition note_faildel (st : dstate) (p : path) : dstate :=
+  mkD (d_fs st) (d_anc st) (d_tick st) (d_open st) (d_events st)
+      (mkX (x_failed (d_x st)) (x_wfail (d_x st)) (x_nwrites (d_x st)) (p :: x_faildel (d_x st))).
+Definition blocked_at (st : dstate) (p : path) : bool := existsb (fun q => is_prefix q p) (x_faildel (d_x st)).
 Definition write_fails (st : dstate) : bool := existsb (N.eqb (x_nwrites (d_x st))) (x_wfail (d_x st)).
 Definition refuses (st : dstate) (p : path) : bool :=
   match x_failed (d_x st) with Some q => path_eqb q p | None => false end.
@@ -138,6 +144,7 @@ Definition doer_exec (fl : flavour) (st : dstate) (c : cmd) : dstate * option er
       | AncBlocked => (st, Some ENotDir)
       end
   | CCreateFolder p =>
+      if blocked_at st p then (st, Some ERefused) else
       match resolve_above st p with
       | PRErr e => (st, Some e)
       | PRThrough q => (with_event st (Through q), None)
@@ -147,41 +154,45 @@ Definition doer_exec (fl : flavour) (st : dstate) (c : cmd) : dstate * option er
                 end
       end
   | CDeleteFile p =>
+      if blocked_at st p then (st, Some ERefused) else
       match resolve_above st p with
-      | PRErr e => (st, Some e)
+      | PRErr e => (note_faildel st p, Some e)
       | PRThrough q => (with_event st (Through q), None)
       | PROk => match fget (d_fs st) p with
                 | Some (NFile _ _) | Some (NLink _ _) => (with_fs st (fdel (d_fs st) p), None)
-                | Some NFolder => (st, Some EIsDir)
-                | None => (st, Some ENoEnt)
+                | Some NFolder => (note_faildel st p, Some EIsDir)
+                | None => (note_faildel st p, Some ENoEnt)
                 end
       end
   | CDeleteFolder p =>
+      if blocked_at st p then (st, Some ERefused) else
       match resolve_above st p with
-      | PRErr e => (st, Some e)
+      | PRErr e => (note_faildel st p, Some e)
       | PRThrough q => (with_event st (Through q), None)
       | PROk => match fget (d_fs st) p with
-                | Some NFolder => if has_children (d_fs st) p then (st, Some ENotEmpty)
+                | Some NFolder => if has_children (d_fs st) p then (note_faildel st p, Some ENotEmpty)
                                   else (with_fs st (fdel (d_fs st) p), None)
-                | Some (NFile _ _) | Some (NLink _ _) => (st, Some ENotDir)
-                | None => (st, Some ENoEnt)
+                | Some (NFile _ _) | Some (NLink _ _) => (note_faildel st p, Some ENotDir)
+                | None => (note_faildel st p, Some ENoEnt)
                 end
       end
   | CDeleteSymlink p k =>
+      if blocked_at st p then (st, Some ERefused) else
       match fl, k with
-      | Windows, SKUnknown => (st, Some EUnknownKind)
+      | Windows, SKUnknown => (note_faildel st p, Some EUnknownKind)
       | _, _ =>
         match resolve_above st p with
-        | PRErr e => (st, Some e)
+        | PRErr e => (note_faildel st p, Some e)
         | PRThrough q => (with_event st (Through q), None)
         | PROk => match fget (d_fs st) p with
                   | Some (NFile _ _) | Some (NLink _ _) => (with_fs st (fdel (d_fs st) p), None)   (* remove_file *)
-                  | Some NFolder => (st, Some EIsDir)
-                  | None => (st, Some ENoEnt)
+                  | Some NFolder => (note_faildel st p, Some EIsDir)
+                  | None => (note_faildel st p, Some ENoEnt)
                   end
         end
       end
   | CCreateSymlink p k t =>
+      if blocked_at st p then (st, Some ERefused) else
       match fl, k with
       | Windows, SKUnknown => (st, Some EUnknownKind)
       | _, _ =>
@@ -195,6 +206,7 @@ Definition doer_exec (fl : flavour) (st : dstate) (c : cmd) : dstate * option er
         end
       end
   | CCreateOrUpdateFile p data set_mt more =>
+      if blocked_at st p then (st, Some ERefused) else
       (* the rest of a transfer whose earlier chunk failed is refused (until its last chunk has passed) *)
       if refuses st p then (with_failed st (if more then Some p else None), Some ERefused)
       else
